@@ -351,3 +351,22 @@ def _c07_xer_recursive(ctx):
     except Exception:
         return False
     return _xer_recursive_of_element(s1) != _xer_recursive_of_element(s2)
+
+
+@finding('C08', 'of-zero-width-elements')
+def _c08_zero_width(ctx):
+    # oer.py:541 / per.py:979 ArrayType.decode: the element count is read from the input and the loop is
+    # bounded only by out-of-data errors, which never occur when an element encodes to zero bits
+    # (NULL, empty SEQUENCE, single-value INTEGER, SIZE(0) strings): 4 input bytes -> millions of elements
+    if ctx.codec not in ('oer', 'per', 'uper'):
+        return False
+    from . import common
+    for n in ctx.tnodes():
+        b = n.r.base
+        if b.kind in ('SEQUENCE OF', 'SET OF') and common.zero_width(ctx.spec, b.elem, n.r.mod):
+            return True
+        # same loop shape: a known-multiplier string whose permitted alphabet has one character
+        # needs zero bits per character
+        if ctx.codec != 'oer' and b.kind in KM_STRINGS and n.r.alpha is not None and len(n.r.alpha.chars()) == 1:
+            return True
+    return False
